@@ -197,6 +197,7 @@ func checkC01(p *core.Program, r *core.Report) {
 	r.Rule("R4", "step/run provenance: every (run, step) pair passed to Run.LogEvent or failRun has step == nil, step created by CreateStep on that run, or step taken from PathLocation of that run (followed through parameters and closures to all call sites)")
 	r.Rule("R5", "event double entry: every Run.LogEvent in the engine is followed in the same block by the sprint's logEvent with the same event; Run.LogEvent has no caller outside the engine package")
 	r.Rule("R6", "path discipline: run.path is appended only by CreateStep, step.exitUUID written only by Leave (and the reader), Leave called only from the exit-picking function with the exit chosen for that node")
+	r.Rule("R8", "a session is declared completed or failed only where no run can still be active or waiting: under a nil test of the parent run, or after a loop that exits every non-exited run of the session")
 	r.Rule("R7", "terminal push exits every run; failure of a child reaches failRun(parent); an action that failed the run stops the node before any wait/route")
 	r.Assumption("the induction over histories (waiting <=> exactly one waiting run, ancestors active) is not performed; R1-R7 are its local steps")
 
@@ -555,6 +556,7 @@ func checkC01(p *core.Program, r *core.Report) {
 
 	// ------------------------------------------------------------------ R7
 	c01R7(p, r, e)
+	c01R8(p, r, e)
 }
 
 func blockLabel(b *ssa.BasicBlock) string {
@@ -947,4 +949,123 @@ func c01R7(p *core.Program, r *core.Report, e *engineFns) {
 	})
 	r.Check(bad == "" && edges > 0 && !res.Truncated, "R7", "visitNode/failed-action-stops-node", p.Pos(e.visit.Pos()),
 		fmt.Sprintf("%d paths: nothing but a return follows the failed-run edge", res.Paths), "a run failed by one of its actions keeps executing: "+bad)
+}
+
+// ------------------------------------------------------------------------------------------------ R8
+
+// c01R8: a session may be declared over (completed / failed) only where no run can still be active or waiting: either
+// the current run has no parent in the session (the store is controlled by a nil test of a flows.Run value, on its nil
+// edge) — every ancestor has been resumed and finished on the way up — or the same function first exits every
+// non-exited run of the session (the fail-session idiom: Run.Exit inside a loop over session.runs dominating the store).
+func c01R8(p *core.Program, r *core.Report, e *engineFns) {
+	n := 0
+	per := map[string]int{}
+	for _, fn := range p.ModuleFunctions() {
+		if core.RelPkg(core.FuncPkgPath(fn)) != "flows/engine" || p.IsTestFile(fn.Pos()) {
+			continue
+		}
+		for _, b := range fn.Blocks {
+			for _, in := range b.Instrs {
+				val, ok := storesStatus(in, e.statusField)
+				if !ok || (val != "completed" && val != "failed") {
+					continue
+				}
+				n++
+				// (a) no parent that could still run: on every way into the store the parent run is nil or not active
+				noActiveParent := func(cond ssa.Value, taken bool) bool {
+					for {
+						if un, ok := cond.(*ssa.UnOp); ok && un.Op == token.NOT {
+							cond, taken = un.X, !taken
+							continue
+						}
+						break
+					}
+					bo, ok := cond.(*ssa.BinOp)
+					if !ok || (bo.Op != token.EQL && bo.Op != token.NEQ) {
+						return false
+					}
+					eq := (bo.Op == token.EQL) == taken
+					for _, pr := range [][2]ssa.Value{{bo.X, bo.Y}, {bo.Y, bo.X}} {
+						x, y := pr[0], pr[1]
+						if core.IsNilConst(y) && strings.HasSuffix(core.ShortType(x.Type()), "flows.Run") && eq {
+							return true // parent == nil
+						}
+						if sc, ok := core.ConstString(y); ok && sc == "active" && !eq {
+							if c, ok := x.(*ssa.Call); ok && c.Call.IsInvoke() && c.Call.Method.Name() == "Status" && strings.HasSuffix(core.ShortType(c.Call.Value.Type()), "flows.Run") {
+								return true // parent.Status() != active
+							}
+						}
+					}
+					return false
+				}
+				var evidence func(b *ssa.BasicBlock, seen map[*ssa.BasicBlock]bool) bool
+				evidence = func(b *ssa.BasicBlock, seen map[*ssa.BasicBlock]bool) bool {
+					if seen[b] {
+						return false
+					}
+					seen[b] = true
+					for _, ce := range core.ControllingConds(b) {
+						if noActiveParent(ce.Cond, ce.Taken) {
+							return true
+						}
+					}
+					if len(b.Preds) == 0 {
+						return false
+					}
+					for _, pr := range b.Preds {
+						okEdge := false
+						if iff, isIf := pr.Instrs[len(pr.Instrs)-1].(*ssa.If); isIf && pr.Succs[0] != pr.Succs[1] {
+							okEdge = noActiveParent(iff.Cond, pr.Succs[0] == b)
+						}
+						if !okEdge && !evidence(pr, seen) {
+							return false
+						}
+					}
+					return true
+				}
+				noParent := evidence(b, map[*ssa.BasicBlock]bool{})
+				// (b) every non-exited run is exited first, in this function or a helper it calls
+				exitsAll := false
+				root := fn
+				for _, ec := range core.EffectiveCalls(root, 2) {
+					o := core.CalleeObj(ec.Inner.Common())
+					if o == nil || core.ObjName(o) != "flows.Run.Exit" {
+						continue
+					}
+					overRuns := false
+					for v := range core.BackSlice(ec.Inner.Common().Value, nil) {
+						if fa, ok := v.(*ssa.FieldAddr); ok && core.FieldAddrVar(fa).Name() == "runs" {
+							overRuns = true
+						}
+					}
+					if overRuns && ec.Outer.Parent() == fn {
+						// the loop over the runs (its header) comes before the store on every path
+						var header *ssa.BasicBlock
+						for _, bb := range fn.Blocks {
+							for _, sc := range bb.Succs {
+								if sc.Dominates(bb) && sc.Dominates(ec.Outer.Block()) && (header == nil || header.Dominates(sc)) {
+									header = sc
+								}
+							}
+						}
+						if header == nil {
+							header = ec.Outer.Block()
+						}
+						if header.Dominates(in.Block()) && !core.Reachable(in.Block(), nil)[header] {
+							exitsAll = true
+						}
+					}
+				}
+				key := core.FuncName(fn) + "/status=" + val
+				per[key]++
+				if per[key] > 1 {
+					key = fmt.Sprintf("%s#%d", key, per[key])
+				}
+				r.Check(noParent || exitsAll, "R8", key, p.Pos(in.Pos()), map[bool]string{true: "stored where the current run's parent is nil or no longer active", false: "stored after every non-exited run of the session has been exited"}[noParent],
+					"the session is declared "+val+" on a path where neither the current run is known to have no parent nor every non-exited run has been exited first: ancestors of the current run stay active in a finished session")
+			}
+		}
+	}
+	r.Count("terminal_session_status_stores", n)
+	r.Require("terminal_session_status_stores", n, 3)
 }
